@@ -4,6 +4,16 @@
 import glob, json, os, subprocess, sys
 only = set(sys.argv[1:])
 rows = []
+_base = {}
+
+
+def baseline(prop):
+    """obligations that are not discharged on the UNCHANGED tree (recorded findings): never counted as a detection"""
+    if prop not in _base:
+        f = f'/tmp/seedsum-base-{prop}.json'
+        subprocess.run(['./check', prop, '--no-bounded', '--summary', f], capture_output=True, text=True, timeout=3000)
+        _base[prop] = {o['name'] for o in json.load(open(f))['not_discharged']} if os.path.exists(f) else set()
+    return _base[prop]
 
 
 def row(m, sat, unk, nsat, nunk, s):
@@ -32,8 +42,9 @@ for f in sorted(glob.glob('seeded/*/meta.json')):
     finally:
         subprocess.run(['git', '-C', '/repo', 'worktree', 'remove', '--force', wt], check=True)
     s = json.load(open(f'/tmp/seedsum-{sid}.json')) if os.path.exists(f'/tmp/seedsum-{sid}.json') else {'not_discharged': [], 'undecided_functions': [], 'crashes': ['no summary']}
-    sat = [o['name'] for o in s['not_discharged'] if o['status'] == 'sat']
-    unk = [o['name'] for o in s['not_discharged'] if o['status'] != 'sat']
+    base = baseline(prop)
+    sat = [o['name'] for o in s['not_discharged'] if o['status'] == 'sat' and o['name'] not in base]
+    unk = [o['name'] for o in s['not_discharged'] if o['status'] != 'sat' and o['name'] not in base]
     m['deductive'] = {'exit': r.returncode, 'definitely_failing_obligations': sat[:8], 'n_sat': len(sat), 'undischarged_obligations': unk[:8], 'n_unknown': len(unk),
                       'functions_outside_the_subset_after_the_change': s['undecided_functions'], 'crashes': s['crashes']}
     json.dump(m, open(f, 'w'), indent=1, default=repr)
